@@ -105,3 +105,55 @@ Theorem C05_outside_grid_partial : forall (c : cfgR) (hist : list inR) (i : inR)
   out_energy c hist i = spec_energy c (spec_run c (hist ++ [i])) (i_x i).
 Proof. exact outside_grid_partial. Qed.
 Print Assumptions C05_outside_grid_partial.
+
+(* FINDING (outside-grid:hills-far-from-edges-dropped).  The full outside-grid statement is false:
+   with gaussianSigmas (hill_width stays 0, so the retained margin is one bin) a hill of sigma = 1 bin
+   deposited 1.5 bins inside the lower edge is not in hills_off_grid; a quarter of a bin outside the
+   grid the implementation returns 0 where the hill is worth exp(-49/32).  Witness w_cfg, [w_i1], w_i2
+   (MetaProofs.v); replayed on the implementation by props/C05/check.py (witness_outside). *)
+Theorem C05_outside_grid_refuted :
+  exists (c : cfgR) (hist : list inR) (i : inR),
+    no_expand c /\ wt_cfg_ok c /\ Forall (wt_dep_inside c) (hist ++ [i]) /\
+    c_use_grids c = true /\ in_grid c (i_x i) = false /\
+    out_energy c hist i <> spec_energy c (spec_run c (hist ++ [i])) (i_x i).
+Proof. exact outside_grid_refuted. Qed.
+Print Assumptions C05_outside_grid_refuted.
+
+(* FINDING (wt:deposit-outside-grid-reads-out-of-range).  FULL STATEMENT (false of the code):
+     forall c hist, no_expand c -> wt_cfg_ok c -> st_ub (final_state Rops c hist) = false.
+   A well-tempered deposit with grids while the variable is outside the grid reads
+   hills_energy->value(curr_bin) without index_ok: the premise [wt_dep_inside] of C05_schedule cannot
+   be dropped.  Witness u_cfg, [u_i]; replayed by check.py (witness_wt_outside). *)
+Theorem C05_wt_deposit_outside_grid_refuted :
+  exists (c : cfgR) (hist : list inR),
+    no_expand c /\ wt_cfg_ok c /\ st_ub (final_state Rops c hist) = true.
+Proof. exact wt_outside_refuted. Qed.
+Print Assumptions C05_wt_deposit_outside_grid_refuted.
+
+(* non-vacuity: the premises of the theorems above are satisfiable, with a hill deposited and
+   tabulated, a step inside and a step outside the grid, a well-tempered deposit inside the grid,
+   and a step so far outside that the premises of C05_outside_grid_partial hold *)
+Example C05_premises_satisfiable :
+  no_expand w_cfg /\ wt_cfg_ok w_cfg /\ Forall (wt_dep_inside w_cfg) ([w_i1] ++ [w_i2]) /\
+  in_grid w_cfg (i_x w_i1) = true /\ in_grid w_cfg (i_x w_i2) = false /\ c_use_grids w_cfg = true /\
+  eligible w_cfg w_i1 = true /\ (0 < length (c_vars w_cfg))%nat /\
+  spec_run w_cfg ([w_i1] ++ [w_i2]) = mkS [mkHill 2%Z 1%R [(3/2)%R]] [].
+Proof.
+  destruct w_hyps as [H1 [H2 H3]].
+  repeat split; try assumption; try reflexivity; [exact w_inside|exact w_outside|cbn; lia].
+Qed.
+
+Example C05_wt_premises_satisfiable :
+  no_expand u_cfg /\ wt_cfg_ok u_cfg /\ c_wt u_cfg = true /\ c_use_grids u_cfg = true /\
+  eligible u_cfg u_in = true /\ wt_dep_inside u_cfg u_in /\ in_grid u_cfg (i_x u_in) = true.
+Proof.
+  destruct u_inside_dep as [H1 [H2 [H3 [H4 H5]]]].
+  repeat split; try assumption; try reflexivity. right; right; exists 1%Z; reflexivity.
+Qed.
+
+Example C05_partial_premises_satisfiable :
+  in_grid w_cfg (i_x w_i3) = false /\
+  (forall h, In h (s_all (spec_run w_cfg ([w_i1] ++ [w_i3]))) -> near w_cfg h = false -> K (c_vars w_cfg) h (i_x w_i3) = 0%R) /\
+  (forall h, In h (s_pend (spec_run w_cfg ([w_i1] ++ [w_i3]))) -> K (c_vars w_cfg) h (i_x w_i3) = 0%R) /\
+  s_all (spec_run w_cfg ([w_i1] ++ [w_i3])) <> [].
+Proof. exact w_far. Qed.
